@@ -694,6 +694,25 @@ def raw (name params hex obs : String) : Verdict :=
     { model := obs, spec, markers }
   | none => { model := "unknown-decoder" }
 
+/-! ### length prefixes with the high bits set -/
+
+/-- `c08.big`: an input whose length / count prefix is between 2^27 and 2^31 (or the like for the other prefix widths),
+followed by at most ~100 bytes.  The Lean model is NOT executed on these lines (it would materialise the declared
+list); what the model does there is what `C08_neg_*` / `C08_large_*` prove: an error.  The oracle is the decoder's own
+independent reader: never `panic`, never `hang`, and a negative or unsatisfiable prefix must give `err`. -/
+def big (name params hex obs : String) : Verdict :=
+  match decoders.find? (fun d => d.name == name), parseHex hex with
+  | some d, some input =>
+    let cls := (obs.splitOn " ").headD ""
+    let spec : Option String :=
+      (specCommon cls) <|>
+      (match d.shape params input with
+        | .bad why => if cls == "err" then none else some s!"{why}: not reported as an error"
+        | _ => none)
+    { model := obs, spec }
+  | none, _ => { model := "unknown-decoder" }
+  | _, none => { model := "bad-arg" }
+
 /-! ### the known finding `C08.ary-zero-width-spin` -/
 
 /-- `Ary[VarInt]` of a zero-size element type: the loop runs `Len` times on an input of at most five bytes.  The
@@ -719,6 +738,7 @@ def handle (op : String) (args : List String) (obs : String) : Option Verdict :=
   match op, args with
   | "c08.dec", [n, p, h] => some (dec n p h obs)
   | "c08.raw", [n, p, h] => some (raw n p h obs)
+  | "c08.big", [n, p, h] => some (big n p h obs)
   | "c08.spin", [h] => some (spin h obs)
   | _, _ => none
 
